@@ -125,7 +125,7 @@ CONFIGS_THOROUGH = ["all", "default"]
 EXPLANATION = ("C14 (independence of backend and node cache): decides that the node cache is written only by to_node_cache and infos_to_nodes (R1), that what enters it is exactly node_from_bytes(index, "
                "storage bytes), never blank nodes, misses, changeset / unflushed / proof nodes, and that it is seeded with the roots read from storage (R2), that a cache miss falls through to the "
                "normal lookup and a hit returns the cached node for the requested index (R3), and that no code outside Storage::new_memory / new_disk names a concrete backend or inspects a backend's "
-               "dynamic type, each store mapping to its own trait object (R4), and that randomness / clocks / environment are read only by key generation, the flush cadence depends only on the core's own counters and signing is the deterministic Ed25519 signer (R5).")
+               "dynamic type, each store mapping to its own trait object (R4), and that randomness / clocks / environment are read only by key generation, the flush cadence depends only on the core's own counters and signing is the deterministic Ed25519 signer (R5), and that `overwrite` empties each of the four stores (the store tested is the store truncated) and every Storage field holds the backend created for its own store (R6).")
 NOT_DECIDED = "byte identity of files across backends; hole punching / del semantics inside random-access-disk; effects of eviction; determinism of flush cadence (skip_flush_count is a plain counter) and of Ed25519 signatures (library)."
 ASSUMPTIONS = ["moka returns only values that were inserted under the same key", "tree nodes on disk are immutable once written except by truncation"]
 
@@ -169,3 +169,45 @@ def r5(ctx, prop=P, rule="C14.R5"):
 
 
 RULES.append(r5)
+
+
+def r6(ctx, prop=P, rule="C14.R6"):
+    """Storage::open: with `overwrite` every one of the four stores is emptied — the store whose
+    length is tested is the store that is truncated — and each field of Storage holds the backend
+    created for its own Store"""
+    from .c09 import dominating_conditions
+    fa = ctx.real_body(STORAGE_OPEN, [RA_TRUNC])
+    if not need(ctx, prop, rule, STORAGE_OPEN, fa):
+        return
+    cleared = []
+    for s in sites(fa, RA_TRUNC):
+        recv = term_sig(fa.arg_origin(s, 0))
+        tested = None
+        for o, tr, _ in dominating_conditions(fa, s):
+            sg = term_sig(o)
+            if sg.startswith("Gt(ok(await(len(") and tr is True:
+                tested = sg[len("Gt(ok(await(len("):].rsplit(")))", 1)[0]
+        store = None
+        for x in subterms(fa.arg_origin(s, 0)):
+            if isinstance(x, tuple) and x[0] == "agg" and x[1].endswith("Store"):
+                store = x[2]
+        same = tested is not None and tested == recv
+        ctx.check(prop, rule, "overwrite: the %s store that is tested is the one truncated" % (store or "?"), same and term_is_lit(fa.arg_origin(s, 1), 0),
+                  "if X.len() > 0 { X.truncate(0) } on the same backend", "truncate(0) at %s is applied to %s but the length test is on %s" % (loc(fa, s), recv[:80], (tested or "-")[:80]), [site_desc(fa, s)],
+                  key="%s|%s|Storage::open|truncate target %s" % (prop, rule, store))
+        if same:
+            cleared.append(store)
+    ctx.check(prop, rule, "overwrite empties all four stores", sorted(cleared) == ["Bitfield", "Data", "Oplog", "Tree"], "tree, data, bitfield, oplog each truncated to 0",
+              "with overwrite = true only %s are emptied: stale bytes of a previous core survive in the others" % sorted(cleared), key="%s|%s|Storage::open|stores emptied" % (prop, rule))
+    sw = list(bool_switches(fa, lambda o: strip(o) == ("param", "overwrite")))
+    ctx.check(prop, rule, "stores are emptied only when overwrite is requested", bool(sw) and all(fa.dominates(sw[0][2], s) for s in sites(fa, RA_TRUNC)), "all truncates under `if overwrite`", "a truncate is outside the overwrite branch")
+    aggs = [fa.origin_rvalue(st["rv"], b.i, si) for b in fa.live() for si, st in enumerate(b.stmts) if st["k"] == "assign" and st["rv"]["k"] == "agg" and st["rv"].get("name") == ST]
+    good = False
+    if aggs:
+        d = {k: term_sig(v) for k, v in aggs[0][3]}
+        good = all(("Store::%s{}" % k.capitalize()) in d.get(k, "") for k in ("tree", "data", "bitfield", "oplog"))
+    ctx.check(prop, rule, "each Storage field holds the backend created for its own store", good, "tree <- create(Store::Tree), data <- create(Store::Data), ..", "Storage fields are wired to %s" % (d if aggs else None),
+              key="%s|%s|Storage::open|field wiring" % (prop, rule))
+
+
+RULES.append(r6)
